@@ -301,3 +301,49 @@ Example kkt_example :
   lagr ((2 # 1) * (3 # 1) / (4 # 1)) [1 # 2] (scale_grads (4 # 1) [8 # 1] [-3 # 2]) == 0 /\
   lagr (3 # 1) (unscale_mults (2 # 1) [8 # 1] [1 # 2]) [-3 # 2] == 0.
 Proof. split; vm_compute; reflexivity. Qed.
+
+(* ---------------------------------------------------------------- _compute_scaled_bounds *)
+
+Lemma length_scale_bound : forall v a s n b, length (scale_bound v a s n b) = n.
+Proof. intros. unfold scale_bound. rewrite map_length, seq_length. reflexivity. Qed.
+
+(* the vectors handed to the optimizer: the images of lower and upper, exchanged (with the
+   sentinels exchanged too) exactly at the elements whose scaler is negative *)
+Theorem scaled_bounds_spec : forall lower upper adder scaler size k,
+  (k < size)%nat ->
+  let lo := nth k (scale_bound lower adder scaler size true) 0 in
+  let hi := nth k (scale_bound upper adder scaler size false) 0 in
+  let r := compute_scaled_bounds lower upper adder scaler size in
+  (is_neg (osv_get 1 scaler k) = false -> nth k (fst r) 0 = lo /\ nth k (snd r) 0 = hi) /\
+  (is_neg (osv_get 1 scaler k) = true ->
+     nth k (fst r) 0 = (if Qle_bool INF_BOUND hi then - INF_BOUND else hi) /\
+     nth k (snd r) 0 = (if Qle_bool lo (- INF_BOUND) then INF_BOUND else lo)).
+Proof.
+  intros lower upper adder scaler size k H lo hi r. subst r. unfold compute_scaled_bounds.
+  destruct scaler as [s|]; simpl osv_get.
+  - cbn [fst snd].
+    rewrite (nth_mapi _ _ k 0 0) by (rewrite length_scale_bound; exact H).
+    rewrite (nth_mapi _ _ k 0 0) by (rewrite length_scale_bound; exact H).
+    fold lo hi. split; intro E; rewrite E; split; reflexivity.
+  - cbn [fst snd]. fold lo hi. split; intro E; [split; reflexivity|]. discriminate.
+Qed.
+
+(* with finite bounds in the right order the optimizer sees lower <= upper whatever the sign of the scaler *)
+Theorem scaled_bounds_ordered : forall l u a s,
+  l <= u -> ~ s == 0 ->
+  let lo := T a s l in let hi := T a s u in
+  (is_neg s = false -> lo <= hi) /\ (is_neg s = true -> hi <= lo).
+Proof.
+  intros l u a s Hlu Hs lo hi. subst lo hi. unfold T, is_neg. split; intro E.
+  - apply negb_false_iff in E. apply Qle_bool_iff in E.
+    apply Qmult_le_compat_r; [|exact E]. apply Qplus_le_compat; [exact Hlu|apply Qle_refl].
+  - apply negb_true_iff in E.
+    assert (Hneg : s <= 0).
+    { destruct (Qlt_le_dec 0 s) as [Hp|Hn]; [|exact Hn].
+      apply Qlt_le_weak in Hp. apply Qle_bool_iff in Hp. congruence. }
+    setoid_replace ((u + a) * s) with (- ((u + a) * - s)) by ring.
+    setoid_replace ((l + a) * s) with (- ((l + a) * - s)) by ring.
+    apply Qopp_le_compat. apply Qmult_le_compat_r.
+    + apply Qplus_le_compat; [exact Hlu|apply Qle_refl].
+    + setoid_replace 0 with (- 0) by reflexivity. apply Qopp_le_compat. exact Hneg.
+Qed.
